@@ -199,10 +199,13 @@ static int64_t unwide(json_t *w)
 }
 
 /* ----------------------------------------------------------------- events */
+static int post_fop;	/* C17: > 0 while the operations AFTER the one in which the fault fired (script index post_fop) are run */
 static void emit(json_t *ev)
 {
-	char *s = json_dumps(ev, JSON_COMPACT | JSON_ENSURE_ASCII);
+	char *s;
 	size_t n;
+	if (post_fop > 0) json_object_set_new(ev, "post", json_integer(post_fop));
+	s = json_dumps(ev, JSON_COMPACT | JSON_ENSURE_ASCII);
 	if (!s) die("dump failed");
 	n = strlen(s);
 	s[n] = '\n';	/* overwrite NUL; write n+1 bytes */
@@ -385,6 +388,12 @@ static void apply_defect(json_t *jwk, const char *member, const char *cls)
 		} else json_object_set_new(jwk, member, json_string("AQIDBAUG"));
 	} else if (!strcmp(cls, "unknownstr")) json_object_set_new(jwk, member, json_string("bogus-value"));
 	else if (!strcmp(cls, "foreign")) json_object_set_new(jwk, member, json_string("AQAB"));
+	else if (!strcmp(cls, "unknownlong")) {	/* an unknown name longer than any message buffer */
+		char *z = malloc(301);
+		memset(z, 'z', 300); z[300] = 0;
+		json_object_set_new(jwk, member, json_string(z));
+		free(z);
+	}
 	/* y := x: coordinates of the right width that are not a point of the curve */
 	else if (!strcmp(cls, "offcurve")) { json_t *x = json_object_get(jwk, "x"); json_object_set_new(jwk, member, x ? json_copy(x) : json_string("AQAB")); }
 	/* valid JSON strings with characters beyond ASCII (UTF-8 bytes >= 0x80) where base64url is expected */
@@ -1541,6 +1550,7 @@ static char *forge_token(json_t *td, json_t *info)
 		const char *over = jstr(sd, "over", "self");
 		char *otext = NULL; size_t olen = 0;
 		int noncanon = 0, notb64 = 0;
+		size_t textext = 0;
 
 		if (!strcmp(over, "self")) { otext = strdup(text); olen = tlen; }
 		else if (!strcmp(over, "hdronly")) { otext = strdup(hseg); olen = strlen(hseg); }
@@ -1608,6 +1618,7 @@ static char *forge_token(json_t *td, json_t *info)
 				dl = i2d_ECDSA_SIG(es, NULL); free(sig); p = sig = malloc(dl + 1); i2d_ECDSA_SIG(es, &p); sl = dl;
 				ECDSA_SIG_free(es);
 			} else if (!strcmp(cls, "notb64")) notb64 = 1;
+			else if (!strcmp(cls, "textext")) textext = (size_t)jint(sd, "tn", 256);
 			else if (!strcmp(cls, "prefixdup")) {
 				/* signature followed by itself */
 				sig = realloc(sig, 2 * sl + 1); memcpy(sig + sl, sig, sl); sl *= 2;
@@ -1634,6 +1645,12 @@ static char *forge_token(json_t *td, json_t *info)
 				}
 			}
 			if (notb64) { size_t n = strlen(sigseg); sigseg[rndn((unsigned)n)] = "!*#$%&()"[rndn(8)]; }
+			if (textext) {	/* the genuine text, then more characters of the alphabet */
+				size_t n = strlen(sigseg);
+				sigseg = realloc(sigseg, n + textext + 1);
+				for (size_t i = 0; i < textext; i++) sigseg[n + i] = B64U[(i * 7 + n) % 64];
+				sigseg[n + textext] = 0;
+			}
 		} else sigseg = strdup("");
 		free(sig); free(otext);
 	}
@@ -2501,9 +2518,9 @@ static void run_case(json_t *c, long idx)
 		cur_op = (int)i;
 		run_op(op);
 	}
-	alarm(0);
 	cur_op = 9999;
-	free_all_objects();
+	free_all_objects();	/* still under the watchdog: releasing the objects is library code too */
+	alarm(0);
 	/* restore process-wide state */
 	jwt_set_crypto_ops("openssl");
 	ev = json_pack("{s:s}", "e", "EndCase");
@@ -2513,6 +2530,15 @@ static void run_case(json_t *c, long idx)
 		json_object_set_new(ev, "leak", json_integer(__lsan_do_recoverable_leak_check() ? 1 : 0));
 #endif
 	emit(ev); json_decref(ev);
+}
+
+static const char *fault_only;	/* --fault-only <op>: allocation faults are counted and injected inside operations of that name only */
+#define FAULT_GATE(op) (!fault_only || !strcmp(jstr(op, "op", "?"), fault_only))
+static int is_config_op(const char *n)
+{
+	static const char *t[] = {"CSetKey", "BSetKey", "CClaimSet", "CClaimDel", "CLeeway", "BOffset", "CSetCb", "BSetCb", "BMap", "BIat", NULL};
+	for (int i = 0; t[i]; i++) if (!strcmp(n, t[i])) return 1;
+	return 0;
 }
 
 /* C17: run the case once counting the library's allocation requests, then once
@@ -2540,12 +2566,41 @@ static void run_case_fault(json_t *c, long idx)
 	json_array_foreach(c, i, op) {
 		if (i == 0 && json_is_string(op)) continue;
 		cur_op = (int)i;
+		fault_mode = FAULT_GATE(op);
 		run_op(op);
 	}
-	alarm(0);
 	n = alloc_count;
 	fault_mode = 0;
 	free_all_objects();
+	alarm(0);
+	/* what the rest of the case does when a configuration call did NOT take effect: the case once more without
+	 * that call, for every configuration call in it (the state a failed call may leave is the old or the new one) */
+	json_array_foreach(c, i, op) {
+		pid_t pid; int st;
+		if (i == 0 && json_is_string(op)) continue;
+		if (fault_only || !is_config_op(jstr(op, "op", "?")) || i + 1 >= json_array_size(c)) continue;
+		ev = json_pack("{s:s,s:I}", "e", "SkipRun", "skip", (json_int_t)i);
+		emit(ev); json_decref(ev);
+		pid = fork();
+		if (pid == 0) {
+			size_t j; json_t *op2;
+			case_rng = seed * 0x9e3779b97f4a7c15ULL ^ fnv(id); drv_now = 1700000000;
+			jwt_set_crypto_ops("openssl");
+			alarm(call_timeout);
+			json_array_foreach(c, j, op2) {
+				if ((j == 0 && json_is_string(op2)) || j == i) continue;
+				cur_op = (int)j;
+				run_op(op2);
+			}
+			cur_op = 9999;
+			free_all_objects();
+			alarm(0);
+			_exit(0);
+		}
+		if (pid < 0) die("fork");
+		waitpid(pid, &st, 0);
+		if (!(WIFEXITED(st) && WEXITSTATUS(st) == 0)) emit_abort("skiprun-died");
+	}
 	for (long k = 0; k < n; k++) {
 		pid_t pid;
 		int st;
@@ -2561,9 +2616,17 @@ static void run_case_fault(json_t *c, long idx)
 			json_array_foreach(c, i, op) {
 				if (i == 0 && json_is_string(op)) continue;
 				cur_op = (int)i;
+				if (!post_fop) fault_mode = FAULT_GATE(op);
 				run_op(op);
-				if (alloc_failed) break;
+				if (alloc_failed && !post_fop) {
+					/* after a configuration call that met the fault the rest of the case runs without faults:
+					 * what the object then does is what its old or its new configuration does */
+					if (!is_config_op(jstr(op, "op", "?"))) break;
+					post_fop = (int)i;
+					fault_mode = 0;
+				}
 			}
+			post_fop = 0;
 			cur_op = 9999;
 			fault_mode = 0;
 			free_all_objects();
@@ -2606,6 +2669,7 @@ int main(int argc, char **argv)
 		else if (!strcmp(argv[i], "--leak-every") && i + 1 < argc) leak_every = atoi(argv[++i]);
 		else if (!strcmp(argv[i], "--timeout") && i + 1 < argc) call_timeout = atoi(argv[++i]);
 		else if (!strcmp(argv[i], "--fault")) do_fault = 1;
+		else if (!strcmp(argv[i], "--fault-only") && i + 1 < argc) fault_only = argv[++i];
 		else if (!strcmp(argv[i], "--track-alloc")) track_alloc = 1;
 		else if (!strcmp(argv[i], "--export-jwk") && i + 1 < argc) { mode_export = "jwk"; mode_arg = argv[++i]; }
 		else if (!strcmp(argv[i], "--export-key") && i + 1 < argc) { mode_export = "key"; mode_arg = argv[++i]; }
